@@ -731,3 +731,47 @@ pub fn check_c07_async(case: &Case, plan: &AsyncPlan, order: (usize, u64, u32), 
         acc.count("instances_with_2+_distinct_call_orders");
     }
 }
+
+// ---------------------------------------------------------------------------
+// C08 under completion orders (direct requirements keep their best candidate whatever order the
+// metadata arrives in)
+// ---------------------------------------------------------------------------
+
+pub fn check_c08_async(case: &Case, plan: &AsyncPlan, order: (usize, u64, u32), acc: &mut Acc) {
+    if !case.p.soft.is_empty() || !case.p.reqs.iter().all(|r| matches!(r, Req::Single(_))) {
+        return;
+    }
+    let sem = Sem::new(&case.u, &case.p);
+    let firsts: Option<Vec<Id>> = case.p.reqs.iter().map(|&r| sem.first(r)).collect();
+    let Some(mut f) = firsts else { return };
+    f.sort();
+    f.dedup();
+    if f.is_empty() || !sem.sat_with(&f) {
+        return;
+    }
+    acc.count("premise_holds");
+    acc.mark_nontrivial(case_hash(case));
+    explore_adaptive(plan, acc, |prefix, acc| {
+        let cfg = async_cfg(plan, prefix);
+        let res = run_case(&case.u, &case.p, &cfg);
+        acc.evaluations += 1;
+        match &res.outcome {
+            Outcome::Ok(sol) => {
+                let missing: Vec<String> = f.iter().filter(|x| !sol.contains(x)).map(|&x| case.u.solv_label(x)).collect();
+                if !missing.is_empty() {
+                    acc.violation(viol(
+                        "C08",
+                        "direct-downgraded:schedule",
+                        format!("a solution with the best candidates of all direct requirements exists, but under this completion order {missing:?} not selected"),
+                        case,
+                        json!({"schedule": res.trace.iter().map(|t| t.0).collect::<Vec<_>>(), "plan": format!("{plan:?}"), "outcome": res.outcome.short()}),
+                        order,
+                    ));
+                }
+            }
+            Outcome::Unsat => acc.violation(viol("C08", "unsat-but-sat:schedule", "Unsolvable under this completion order although a solution exists".into(), case, json!({"schedule": res.trace.iter().map(|t| t.0).collect::<Vec<_>>(), "plan": format!("{plan:?}")}), order)),
+            _ => {}
+        }
+        res.trace.clone()
+    });
+}
